@@ -55,7 +55,18 @@ def cache(ctx, quick):
     return flags
 
 
-ITEMS = [("pipeline", pipeline), ("daemon", daemon), ("cache", cache)]
+def recordformat(ctx, quick):
+    """Record-format rules of the parser beyond C12: rule keys -> Tags() (the kernel joins keys with
+    0x01 and hex-encodes them), AVC result/permission list, LOGIN old/new fields."""
+    tp = ctx.path("parsex", "trace.ndjson")
+    st = ctx.driver_json(["parse-fields", "--extras", "--out", tp, "--seed", ctx.seed, "--n", 1000 if quick else 50000], timeout=3000)["stats"]
+    parse_cfg = TRACE_CFG
+    flags, n = core.judge_traces(ctx, "parse", "ParseTrace", parse_cfg, tp)
+    ctx.log("record-format rules: %s; %d records judged; %d flags" % (st, n, len(flags)))
+    return flags
+
+
+ITEMS = [("pipeline", pipeline), ("daemon", daemon), ("cache", cache), ("recordformat", recordformat)]
 
 
 def run(tier, seed, only=None):
